@@ -17,7 +17,7 @@ import (
 func genC17(rng *rand.Rand, c *Case) {
 	c.Cfg["policy"] = rng.Intn(3)
 	// the operator reloads the configuration (SIGHUP / admin API) while requests are in flight
-	c.Cfg["reloads"] = 40 * rng.Intn(2)
+	c.Cfg["reloads"] = rng.Intn(2)
 	c.Cfg["reload_delay"] = rng.Intn(60)
 	c.Cfg["seg_c2s"] = rng.Intn(2)
 	n := 1 + rng.Intn(3)
@@ -138,6 +138,9 @@ func runC17(w *World) {
 			SettleShort()
 			obsBefore := len(observer.InboxOf(rp.TNotifyDeleteUser))
 			kickAt := w.Sim.Now()
+			if w.Case.Cfg["reloads"] == 1 {
+				w.ReloadDuring(w.Case.Cfg["reload_delay"])
+			}
 			rep, ok := admin.DisconnectUser(vid, kick.N[0])
 			if !ok || rep.Err != 0 {
 				w.Violate("c17-disconnect-refused", "administrator's disconnect request (option %d) refused: %s", kick.N[0], fieldStr(rep, rp.FError))
@@ -285,6 +288,9 @@ func runC17(w *World) {
 					if a2.loggedIn {
 						id2 := vc2.MyUserID()
 						kickAt2 := w.Sim.Now()
+						if w.Case.Cfg["reloads"] == 1 {
+							w.ReloadDuring(w.Case.Cfg["reload_delay"] / 2)
+						}
 						if rep, ok := admin.DisconnectUser(id2, kick.N[1]); ok && rep.Err == 0 {
 							simrt.Sleep(2500 * time.Millisecond)
 							if kick.N[1] == 2 {
@@ -314,7 +320,6 @@ func runC17(w *World) {
 			}
 		}
 	})
-	w.StartOperator(w.Case.Cfg["reloads"], w.Case.Cfg["reload_delay"])
 	w.Sim.Run()
 }
 
